@@ -180,12 +180,6 @@ func (e *c30env) server(cfg string) *fullServer {
 	return e.servers[cfg]
 }
 
-type snapEntry struct {
-	Key  string
-	ETag string
-	Size int64
-}
-
 // snapshot lists every object of the bucket plus every pending upload with its parts.
 func (e *c30env) snapshot(fs *fullServer) (string, error) {
 	ctx := context.Background()
